@@ -40,7 +40,8 @@ def generate(ctx):
              "scale": rng.choice([1.0, 0.5, 2.0]), "p": rng.choice([0.3, 0.5, 0.8]), "seed": rng.randrange(1 << 30),
              "reassign_delays": bool(delay) and rng.random() < 0.4, "per_cell": rng.random() < 0.4,
              "lr_a3": rng.choice([0.3, -0.3, 1.5, -1.5]), "lr_b3": rng.choice([0.2, -0.2, 1.2, -1.2]),
-             "clear_at": rng.choice([None, None, 3, 5]), "keepshape": rng.random() < 0.6}
+             "clear_at": rng.choice([None, None, 3, 5]), "keepshape": rng.random() < 0.6,
+             "inplace": rng.random() < 0.5, "interp_tolerance": rng.choice([0.0, 1e-3])}
         if d["reward"] == "tensor":
             d["reduction"] = "sum"   # per-sample signals split the batch by sign: only a sum is reduction-order free
         if rng.random() < 0.4:
@@ -88,7 +89,7 @@ def run_trainer_history(ctx, desc, prop, pre_seq, post_seq, rewards, extra_check
     name = desc["trainer"]
     a, b = SIGNS[desc["signs"]]
     hyper = {"lr_a": a, "lr_b": b, "trace_mode": desc.get("trace_mode", "cumulative"), "delayed": desc.get("delayed", False)}
-    for k in ("lr_a3", "lr_b3", "tensor_kwargs", "tc_a", "tc_b", "tc_a_slow", "tc_b_slow", "tc_elig"):
+    for k in ("lr_a3", "lr_b3", "tensor_kwargs", "tc_a", "tc_b", "tc_a_slow", "tc_b_slow", "tc_elig", "inplace", "interp_tolerance"):
         if k in desc:
             hyper[k] = desc[k]
     if "mag" in desc:
